@@ -370,6 +370,10 @@ func (fr *Frame) applySpecClosure(spec *FuncSpec, key string, sig *types.Signatu
 				fc.setComp(st, mh, hs, app("store", hh, v.t, nh))
 				fc.setComp(st, mv, vs, app("store", vv, v.t, nv))
 				fc.setComp(st, "ML", "(Array Ptr Int)", app("store", ml, v.t, nl))
+				if m.DelOnly {
+					// m[-]: the new key set is a subset of the old one, surviving entries keep their values, the length does not grow
+					fc.assume(g, deleteOnlyCond(fc.tc.sortOf(mt.Key()), fc.tc.wf("dk", mt.Key(), ""), app("select", hh, v.t), app("select", vv, v.t), nh, nv, app("select", ml, v.t), nl))
+				}
 				continue
 			}
 			sl, ok := types.Unalias(v.typ).Underlying().(*types.Slice)
